@@ -61,7 +61,7 @@ PROPS["C16"] = dict(
     builds=[("asan", "native")],
     builds_thorough=[("asan", "native"), ("asan", "portable"), ("plain", "native")],
     level="exploration",
-    rule=("Pad: every (unpadded length 0..320) x (block size 0..130, 255, 256, 257, 1000, 4096, 65536, 2^20; large blocks thinned) x stated capacity {0, unpadded/2, unpadded-1, unpadded, padded-1, padded, "
+    rule=("Pad: every (unpadded length 0..320) x (block size 0..130, 255, 256, 257, 1000, 4096, 65536, 2^20; large blocks thinned; plus block sizes 2^24+1, 2^25, 2^25+3 with more than 2^24 padding bytes) x stated capacity {0, unpadded/2, unpadded-1, unpadded, padded-1, padded, "
           "padded+1, padded+blocksize+3} (the buffer always holds the data; a smaller stated capacity must give -1 without a write) with NULL and non-NULL length pointer; oracle: 0x80 then zeros to the next multiple, data and bytes past the padded length untouched, "
           "-1 without any write when it does not fit or block size is 0, unpad(pad(x)) == |x|. Unpad: EXHAUSTIVE final blocks over {00,80,01,ff} for block sizes 1..6 with 0..2 preceding "
           "blocks full of markers; for larger block sizes marker at every position x {valid, 0x81, junk after, later marker, missing, markers before} x {aligned, non-multiple length}; "
@@ -108,7 +108,7 @@ PROPS["C02"] = dict(
     rule=("For each of the verifying APIs (6 AEADs x {decrypt, decrypt verify-only (m=NULL), decrypt_detached, detached verify-only} + AES-256-GCM afternm, secretbox open_easy/open_detached in both "
           "ciphers + NaCl form, box open_easy/open_detached/afternm forms/NaCl forms/seal_open in both ciphers, secretstream pull, crypto_auth x4 and crypto_onetimeauth verify, crypto_sign_open, "
           "verify_detached, Ed25519ph final_verify) a valid tuple is built with the library for message lengths {0,1,15,16,17,31,32,33,63,64,65,96} (every bit of every tamperable field flipped) and "
-          "{127,128,129,255,256,257,600} (256 sampled bit positions per field), then tampered: single-bit flip, the same bit flipped in two bytes 4/8/16/32 bytes apart (differences that cancel in a lane-wise or XOR-folding comparison), truncation of each variable-length field to every shorter length (incl. below the tag size), "
+          "{127,128,129,255,256,257,600} (256 sampled bit positions per field), then tampered: single-bit flip (sampled sweeps always include the structurally special bits: first/last byte, bits 248-255 and 256-263 of a field that embeds a 32-byte key or header), the same bit flipped in two bytes 4/8/16/32 bytes apart (differences that cancel in a lane-wise or XOR-folding comparison), truncation of each variable-length field to every shorter length (incl. below the tag size), "
           "extension by 1/2/15/16/17 bytes, field swapped in from an independent valid tuple. Oracle: return != 0, reported length 0, secretstream tag 0xff, every output byte equals the pre-fill or one "
           "constant filler byte (same value across independent keys/messages), no 8-byte window of the true plaintext in the output (ASan-poisoned exact buffers); the untampered tuple must verify and "
           "return the message. Excluded as spec-defined don't-care bits: the 22 clamped bits of the Poly1305 r key half, the 16-byte NaCl zero prefix; asymmetric key pairs are not flipped. "
@@ -123,7 +123,7 @@ PROPS["C18"] = dict(
     builds_thorough=[("asan", "native"), ("asan", "portable")],
     level="exploration",
     rule=("A scripted randombytes_implementation without `uniform` is installed before sodium_init and logs every request. (a) randombytes_uniform(n) for n in {0,1,2,3,5,..,2^k-1,2^k,2^k+1 (k=2..31), "
-          "2^31+-1, 2^32-1, 2^32-2, 300 random}: scripts of 0..4 rejected draws taken from {0, min-1, min/2, random<min} in every order followed by an accepted draw from {min, min+1, 2^32-1, random}; "
+          "2^31+-1, 2^32-1, 2^32-2, 300 random}: scripts of 0..4 rejected draws taken from {0, min-1, min/2, random<min} in every order followed by an accepted draw from {min, min+1, 2^32-1, random}; plus rejection runs of 5..4097 draws for 7 bounds; "
           "oracle: result = first draw >= 2^32 mod n, modulo n, exact number of draws consumed, 0 with no draw for n<2. (b) randombytes_buf_deterministic for every length 0..1100 against the reference "
           "ChaCha20-IETF keystream with nonce 'LibsodiumDRG' under 3 CPU masks. (c) 50 generating APIs (29 *_keygen, 3 X25519 key pairs, Ed25519 key pair, secretstream header, 2 sealed boxes, 5 password-hash "
           "string functions, random Edwards/Ristretto points, random scalars with scripts forcing the rejection loop (>=L, zero, exactly L, L-1 with masked bits), randombytes_buf/random); a quarter of the cases first call randombytes_stir / randombytes_close (in four orders) on the installed source, which must stay the one in use): output equals the "
@@ -314,7 +314,7 @@ PROPS["C19"] = dict(
     rule=("Each trial is a fresh process of a ThreadSanitizer build (library and harness instrumented): N in 2..16 threads are released from a barrier, each with a generated pre-delay (none, k sched_yield calls, a spin of "
           "generated length) so that the arrival order varies, call sodium_init() and then run a generated workload of 1..6 API-table drivers (all families: AEAD, box, sign, hashes, KDF, streams, codecs, padding, "
           "small-cost password hashing) on thread-private buffers, followed by operations on shared library state: randombytes_buf/uniform/random on the active random source, key generators, crypto_*_keypair, "
-          "sodium_malloc/allocarray/mprotect_*/free. Two families: default random source (280 trials) and randombytes_internal_implementation installed before init (120 trials); half of the trials run under a reduced CPU-feature mask and a third make every thread run the same API entry. A third sub-property ('focused') enumerates every API-table entry x 6 CPU masks (all, -AVX512F, -AVX2, SSE2/3 only, none, AES-NI off): all threads run that one entry at once, so function-local state that should be per call is touched by two unsynchronised threads. A trial that has not finished after 180 s (normal < 3 s) is killed and reported as a hang. Oracle: no ThreadSanitizer report "
+          "sodium_malloc/allocarray/mprotect_*/free. Two families: default random source (280 trials) and randombytes_internal_implementation installed before init (120 trials); half of the trials run under a reduced CPU-feature mask and a third make every thread run the same API entry. A third sub-property ('focused') enumerates every API-table entry x 6 CPU masks (all, -AVX512F, -AVX2, SSE2/3 only, none, AES-NI off): all threads run that one entry at once, so function-local state that should be per call is touched by two unsynchronised threads. Every thread's first 32 random bytes are compared across threads and against the keystream of the all-zero ChaCha20 key (an unseeded per-thread generator races with nothing and is invisible to the race detector). A trial that has not finished after 180 s (normal < 3 s) is killed and reported as a hang. Oracle: no ThreadSanitizer report "
           "(happens-before: a race is flagged whenever the two accesses are unordered in the observed execution), exactly one thread gets 0 from sodium_init and all others 1, a later call returns 1, and every thread's "
           "output digest equals the digest of the same workload recomputed sequentially after the join. A failing trial is re-run 5 times and reported if it fails at least twice. "
           "Non-trivial = every trial has N >= 2; the histogram records trials in which >= 2 threads had reached sodium_init before the first one returned; distinct = (N, seed, family)."),
@@ -334,11 +334,11 @@ PROPS["C11"] = dict(
           "scalar add/sub/mul/negate/complement/invert/reduce, ChaCha20 / IETF / XChaCha20 / Salsa20 / XSalsa20 / Salsa20-12 stream and xor, HChaCha20 / HSalsa20, Poly1305 one-shot and streaming, HMAC-SHA-256/512/512-256, "
           "SHA-256/512, keyed BLAKE2b one-shot and streaming, SipHash, BLAKE2b KDF, HKDF-SHA-256/512, ChaCha20-Poly1305 (3 variants) and secretbox (2 variants) encryption, AES-256-GCM and AEGIS-128L/256 encryption on the "
           "AES-NI backend, bin2hex, bin2base64 (4 variants), sodium_unpad (secret marker position) and sodium_pad (secret unpadded length). Public lengths across block boundaries "
-          "{0,1,15-17,31-33,63-65,100,127-129,255-257,300,511-513,600}; structured secret pairs: random/random, all-00/all-ff, first byte, last byte, sampled single bits, random/zero, same key other message, other key "
+          "{0-4,7-9,12,15-17,24,31-33,48,63-65,100,127-129,255-257,300,511-513,600}; structured secret pairs: random/random, all-00/all-ff, first byte, last byte, sampled single bits, random/zero, same key other message, other key "
           "same message; for comparisons equal vs first-byte / last-byte / random / single-bit difference; scalars {1, 2, L-1, 2^252, sparse, dense, random} (identity results excluded as the property allows); all "
           "marker positions. CPU masks {all, -avx2, -ssse3, none} x builds {native, noasm, portable} make each C backend visible. On divergence both traces are recorded in full and the first differing event is symbolised. "
-          "Second monitor for assembly and gcc code generation: 924 operation executions per run on the gcc -O2 build under valgrind memcheck with the secret bytes marked undefined (every conditional jump or address "
-          "depending on them is reported; Edwards/Ristretto scalar multiplication, which branches on the public identity-result check, and sodium_pad are excluded there). Non-trivial = pair with S1 != S2 (the histogram "
+          "Second monitor for assembly and gcc code generation: about 1300 operation executions per run on the gcc -O2 build under valgrind memcheck with the secret bytes marked undefined (every conditional jump or address "
+          "depending on them is reported; Edwards/Ristretto scalar multiplication, which branches on the public identity-result check, and sodium_pad are excluded there; only this monitor runs password hashing, because its internal allocations make addresses incomparable between two executions: Argon2i through crypto_pwhash at 8 KiB and 1040 KiB, and the data-independent first half of Argon2id - pass 0, slices 0 and 1 - on the ref, SSSE3 and AVX2 block-fill functions through the library's internal entry points). Non-trivial = pair with S1 != S2 (the histogram "
           "counts pairs with fewer than 20 trace events); distinct = (build, operation, public length, mask, pair class)."),
     assumptions=["decides the binaries produced by clang 14 -O2 (trace monitor) and gcc 12 -O2 (valgrind monitor) from /repo's working tree; hand-written assembly is only visible to the valgrind monitor",
                  "instruction-level timing (variable-latency instructions, micro-architectural effects) is outside the property"],
